@@ -12,6 +12,10 @@ namespace Ldk.Chan
     this revoke_and_ack was already owed (`raaSent < needRaa`); otherwise the batch goes first
     (`resend_order = CommitmentFirst`, set in `commitment_signed`);
   * a batch removes each HTLC at most once;
+  * an `update_fee` is processed only once the previous inbound fee update has left
+    AwaitingRemoteRevokeToAnnounce: `update_fee` OVERWRITES `pending_update_fee`, and the real node never
+    rests in that state unless it awaits a revoke_and_ack (`commitment_signed` sets `need_commitment` and
+    builds the next commitment at once), in which case the revoke_and_ack arrives before the next update_fee;
   * new HTLCs are covered by the sender's balance net of its pending outbound HTLCs that still count
     against it (`liveSum`: all but the FAILED removals already signed away — those are in no commitment
     and never subtract from `value_to_self`); mirrors send_htlc → get_available_balances. -/
@@ -20,11 +24,24 @@ def liveOut (st : OutState) : Bool :=
 
 def liveSum (n : Node) : Nat := ((n.outb.filter (fun h => liveOut h.st)).map (·.amt)).sum
 
+/-- the head of a queue is an update_fee -/
+def headIsFee : List Msg → Bool
+  | .fee _ :: _ => true
+  | _ => false
+
+/-- the node's previous inbound fee update is still AwaitingRemoteRevokeToAnnounce -/
+def Node.feeToAnnounce (n : Node) : Bool :=
+  match n.pendingFee with
+  | some (_, .awaitingRemoteRevokeToAnnounce) => true
+  | _ => false
+
 def evOk (s : Sys) : Ev → Bool
   | .sendRaa true => decide (s.pendA = []) || decide (s.a.raaSent < s.needRaaA)
   | .sendRaa false => decide (s.pendB = []) || decide (s.b.raaSent < s.needRaaB)
   | .commit true adds fu fa => decide ((fu ++ fa).Nodup) && decide (adds.sum + liveSum s.a ≤ s.a.valueToSelf)
   | .commit false adds fu fa => decide ((fu ++ fa).Nodup) && decide (adds.sum + liveSum s.b ≤ s.b.valueToSelf)
+  | .recv true => !(headIsFee s.qba && s.a.feeToAnnounce)
+  | .recv false => !(headIsFee s.qab && s.b.feeToAnnounce)
   | _ => true
 
 def stepG (s : Sys) (e : Ev) : Option Sys := if evOk s e then step s e else none
@@ -75,7 +92,7 @@ theorem runG_induction (P : Sys → Prop) (hstep : ∀ s s' e, P s → stepG s e
 
 def Sys.swap (s : Sys) : Sys :=
   { a := s.b, b := s.a, qab := s.qba, qba := s.qab, pendA := s.pendB, pendB := s.pendA,
-    needRaaA := s.needRaaB, needRaaB := s.needRaaA, total := s.total, agreed := s.agreed }
+    needRaaA := s.needRaaB, needRaaB := s.needRaaA, total := s.total, agreed := s.agreed, feeAgreed := s.feeAgreed }
 
 def Ev.swap : Ev → Ev
   | .commit x adds fu fa => .commit (!x) adds fu fa
@@ -84,6 +101,7 @@ def Ev.swap : Ev → Ev
   | .recv y => .recv (!y)
   | .disconnect => .disconnect
   | .reest y => .reest (!y)
+  | .fee x f => .fee (!x) f
 
 @[simp] theorem Sys.swap_swap (s : Sys) : s.swap.swap = s := by cases s; rfl
 @[simp] theorem Ev.swap_swap (e : Ev) : e.swap.swap = e := by cases e <;> simp [Ev.swap]
@@ -147,6 +165,14 @@ theorem step_swap (s : Sys) (e : Ev) : step s.swap e.swap = (step s e).map Sys.s
       | nil => simp
       | cons m rest => simp only []; cases s.a.onMsg s.total m <;> simp [Sys.swap]
   | disconnect => simp [Ev.swap, step, Sys.swap]
+  | fee x f =>
+    cases x
+    · simp only [Ev.swap, step, Sys.swap, Bool.not_false]
+      by_cases h1 : s.b.paused = true <;> by_cases h2 : s.b.isFunder = true <;> by_cases h3 : s.b.awaitingRaa = true <;>
+        by_cases h4 : s.pendB = [] <;> by_cases h5 : s.b.pendingFee.isSome = true <;> simp [h1, h2, h3, h4, h5, Sys.swap]
+    · simp only [Ev.swap, step, Sys.swap, Bool.not_true]
+      by_cases h1 : s.a.paused = true <;> by_cases h2 : s.a.isFunder = true <;> by_cases h3 : s.a.awaitingRaa = true <;>
+        by_cases h4 : s.pendA = [] <;> by_cases h5 : s.a.pendingFee.isSome = true <;> simp [h1, h2, h3, h4, h5, Sys.swap]
   | reest y =>
     cases y
     · simp only [Ev.swap, step, Sys.swap, Bool.not_false]
@@ -162,6 +188,7 @@ theorem evOk_swap (s : Sys) (e : Ev) : evOk s.swap e.swap = evOk s e := by
   | recv y => cases y <;> rfl
   | disconnect => rfl
   | reest y => cases y <;> rfl
+  | fee x f => cases x <;> rfl
 
 theorem stepG_swap {s s' : Sys} {e : Ev} (h : stepG s e = some s') : stepG s.swap e.swap = some s'.swap := by
   obtain ⟨h1, h2⟩ := stepG_some h
@@ -213,12 +240,39 @@ def markRemoved (inb : List InHtlc) (fu fa : List Nat) : List InHtlc :=
 
 /-- the node right after `build_commitment_no_status_check`'s rewrites (before the flag/counter bump) -/
 def Node.built (n : Node) (adds fu fa : List Nat) : Node :=
-  { n with inb := (markRemoved n.inb fu fa).map (fun (h : InHtlc) => { h with st := h.st.onBuildCommitment }),
-           outb := (n.outb ++ mkOuts n.nextOutId adds).map (fun (h : OutHtlc) => { h with st := h.st.onBuildCommitment }),
-           nextOutId := n.nextOutId + adds.length }
+  { n.promoteFee with
+    inb := (markRemoved n.inb fu fa).map (fun (h : InHtlc) => { h with st := h.st.onBuildCommitment }),
+    outb := (n.outb ++ mkOuts n.nextOutId adds).map (fun (h : OutHtlc) => { h with st := h.st.onBuildCommitment }),
+    nextOutId := n.nextOutId + adds.length }
 
 def batchOf (n : Node) (adds fu fa : List Nat) : List Msg :=
-  mkAdds n.nextOutId adds ++ fu.map Msg.fulfill ++ fa.map Msg.fail ++ [Msg.cs ((n.built adds fu fa).buildView false true)]
+  n.feeMsgs ++ mkAdds n.nextOutId adds ++ fu.map Msg.fulfill ++ fa.map Msg.fail ++ [Msg.cs ((n.built adds fu fa).buildView false true)]
+
+/-- promoting a fee update touches nothing but `feerate` / `pendingFee` -/
+theorem promoteFee_fields (n : Node) : n.promoteFee.valueToSelf = n.valueToSelf ∧ n.promoteFee.inb = n.inb ∧
+    n.promoteFee.outb = n.outb ∧ n.promoteFee.awaitingRaa = n.awaitingRaa ∧ n.promoteFee.owesRaa = n.owesRaa ∧
+    n.promoteFee.nextOutId = n.nextOutId ∧ n.promoteFee.nextInId = n.nextInId ∧ n.promoteFee.csSent = n.csSent ∧
+    n.promoteFee.csRecv = n.csRecv ∧ n.promoteFee.raaSent = n.raaSent ∧ n.promoteFee.raaRecv = n.raaRecv ∧
+    n.promoteFee.paused = n.paused ∧ n.promoteFee.isFunder = n.isFunder := by
+  exact ⟨rfl, rfl, rfl, rfl, rfl, rfl, rfl, rfl, rfl, rfl, rfl, rfl, rfl⟩
+
+theorem promoteFee_feeMsgs (n : Node) : n.promoteFee.feeMsgs = n.feeMsgs := by
+  unfold Node.feeMsgs
+  show (match n.promoted.2 with | some (f, .outbound) => [Msg.fee f] | _ => []) = _
+  unfold Node.promoted
+  cases hp : n.pendingFee with
+  | none => simp
+  | some p => obtain ⟨f, st⟩ := p; cases st <;> simp
+
+/-- the fields of `built` that come from the node unchanged -/
+theorem built_fields (n : Node) (adds fu fa : List Nat) : (n.built adds fu fa).valueToSelf = n.valueToSelf ∧
+    (n.built adds fu fa).awaitingRaa = n.awaitingRaa ∧ (n.built adds fu fa).owesRaa = n.owesRaa ∧
+    (n.built adds fu fa).nextInId = n.nextInId ∧ (n.built adds fu fa).csSent = n.csSent ∧
+    (n.built adds fu fa).csRecv = n.csRecv ∧ (n.built adds fu fa).raaSent = n.raaSent ∧
+    (n.built adds fu fa).raaRecv = n.raaRecv ∧ (n.built adds fu fa).paused = n.paused ∧
+    (n.built adds fu fa).isFunder = n.isFunder := by
+  obtain ⟨h1, _, _, h4, h5, _, h7, h8, h9, h10, h11, h12, h13⟩ := promoteFee_fields n
+  exact ⟨h1, h4, h5, h7, h8, h9, h10, h11, h12, h13⟩
 
 theorem commit_some {n n' : Node} {adds fu fa : List Nat} {ms : List Msg} (h : n.commit adds fu fa = some (n', ms)) :
     n.awaitingRaa = false ∧
@@ -232,23 +286,38 @@ theorem commit_some {n n' : Node} {adds fu fa : List Nat} {ms : List Msg} (h : n
     split at h
     · contradiction
     · rename_i hall
+      simp only [] at h
       rw [addOut_eq] at h
       simp only [Option.some.injEq, Prod.mk.injEq] at h
+      obtain ⟨_, p2, p3, _, _, p6, _, _, _, _, _, _, _⟩ := promoteFee_fields n
+      rw [p2, p3, p6] at h
       refine ⟨by simpa using haw, ?_, ?_, ?_⟩
       · intro id hid
         have hall' : (fu ++ fa).all (fun id => n.inb.any (fun h => decide (h.id = id) && h.st == .committed)) = true := by
           simpa using hall
         have := List.all_eq_true.1 hall' id hid
         simpa using this
-      · rw [← h.1]; rfl
-      · rw [← h.2]; rfl
+      · rw [← h.1, (promoteFee_fields n).2.2.2.2.2.2.2.1]; rfl
+      · rw [← h.2, promoteFee_feeMsgs]; rfl
 
 /-! ### closed form of `Node.onMsg` -/
 
 def Node.afterCs (n : Node) : Node :=
   { n with inb := n.inb.map (fun (h : InHtlc) => { h with st := h.st.onCommitmentSigned }),
            outb := n.outb.map (fun (h : OutHtlc) => { h with st := h.st.onCommitmentSigned }),
-           owesRaa := n.owesRaa + 1, csRecv := n.csRecv + 1 }
+           owesRaa := n.owesRaa + 1, csRecv := n.csRecv + 1,
+           pendingFee := match n.pendingFee with
+             | some (f, .remoteAnnounced) => some (f, .awaitingRemoteRevokeToAnnounce)
+             | pf => pf }
+
+theorem onMsg_fee {n n' : Node} {total f : Nat} {ok : Bool} (h : n.onMsg total (.fee f) = some (n', ok)) :
+    n.isFunder = false ∧ ok = true ∧ n' = { n with pendingFee := some (f, .remoteAnnounced) } := by
+  simp only [Node.onMsg] at h
+  split at h
+  · contradiction
+  · rename_i hf
+    simp only [Option.some.injEq, Prod.mk.injEq] at h
+    exact ⟨by simpa using hf, h.2.symm, h.1.symm⟩
 
 theorem onMsg_add {n n' : Node} {total id amt : Nat} {ok : Bool} (h : n.onMsg total (.add id amt) = some (n', ok)) :
     id = n.nextInId ∧ ok = true ∧
@@ -464,7 +533,7 @@ theorem step_sendRaa_false {s s' : Sys} (h : step s (.sendRaa false) = some s') 
 
 theorem step_recv_true {s s' : Sys} (h : step s (.recv true) = some s') :
     s.a.paused = false ∧ ∃ m rest n ok, s.qba = m :: rest ∧ s.a.onMsg s.total m = some (n, ok) ∧
-      s' = { s with a := n, qba := rest, agreed := s.agreed && ok } := by
+      s' = { s with a := n, qba := rest, agreed := s.agreed && ok, feeAgreed := s.feeAgreed && s.a.feeOk m } := by
   simp only [step] at h
   split at h
   · contradiction
@@ -481,7 +550,7 @@ theorem step_recv_true {s s' : Sys} (h : step s (.recv true) = some s') :
 
 theorem step_recv_false {s s' : Sys} (h : step s (.recv false) = some s') :
     s.b.paused = false ∧ ∃ m rest n ok, s.qab = m :: rest ∧ s.b.onMsg s.total m = some (n, ok) ∧
-      s' = { s with b := n, qab := rest, agreed := s.agreed && ok } := by
+      s' = { s with b := n, qab := rest, agreed := s.agreed && ok, feeAgreed := s.feeAgreed && s.b.feeOk m } := by
   simp only [step] at h
   split at h
   · contradiction
@@ -537,6 +606,30 @@ theorem step_reest_false {s s' : Sys} (h : step s (.reest false) = some s') :
     simp only [hc, Option.map_some, Option.some.injEq] at h
     exact ⟨n, p, rfl, h.symm⟩
 
+theorem step_fee_true {s s' : Sys} {f : Nat} (h : step s (.fee true f) = some s') :
+    s.a.paused = false ∧ s.a.isFunder = true ∧ s.a.awaitingRaa = false ∧ s.pendA = [] ∧ s.a.pendingFee = none ∧
+    s' = { s with a := { s.a with pendingFee := some (f, .outbound) } } := by
+  simp only [step] at h
+  split at h
+  · contradiction
+  · rename_i hc
+    injection h with h
+    simp only [Bool.or_eq_true, Bool.not_eq_true', decide_eq_true_eq, not_or, Bool.not_eq_true, Option.isSome_eq_false_iff,
+      Option.isNone_iff_eq_none, ne_eq, Decidable.not_not, Bool.not_eq_false] at hc
+    exact ⟨hc.1.1.1.1, hc.1.1.1.2, hc.1.1.2, hc.1.2, hc.2, h.symm⟩
+
+theorem step_fee_false {s s' : Sys} {f : Nat} (h : step s (.fee false f) = some s') :
+    s.b.paused = false ∧ s.b.isFunder = true ∧ s.b.awaitingRaa = false ∧ s.pendB = [] ∧ s.b.pendingFee = none ∧
+    s' = { s with b := { s.b with pendingFee := some (f, .outbound) } } := by
+  simp only [step] at h
+  split at h
+  · contradiction
+  · rename_i hc
+    injection h with h
+    simp only [Bool.or_eq_true, Bool.not_eq_true', decide_eq_true_eq, not_or, Bool.not_eq_true, Option.isSome_eq_false_iff,
+      Option.isNone_iff_eq_none, ne_eq, Decidable.not_not, Bool.not_eq_false] at hc
+    exact ⟨hc.1.1.1.1, hc.1.1.1.2, hc.1.1.2, hc.1.2, hc.2, h.symm⟩
+
 /-- counters a message can touch -/
 theorem onMsg_sent_owes {n n' : Node} {total : Nat} {m : Msg} {ok : Bool} (h : n.onMsg total m = some (n', ok)) :
     n'.raaSent = n.raaSent ∧ n'.owesRaa = n.owesRaa + (match m with | .cs _ => 1 | _ => 0) := by
@@ -545,6 +638,7 @@ theorem onMsg_sent_owes {n n' : Node} {total : Nat} {m : Msg} {ok : Bool} (h : n
   | fulfill id => obtain ⟨_, _, e⟩ := onMsg_fulfill h; subst e; exact ⟨rfl, rfl⟩
   | fail id => obtain ⟨_, _, e⟩ := onMsg_fail h; subst e; exact ⟨rfl, rfl⟩
   | cs c => obtain ⟨e, _⟩ := onMsg_cs h; subst e; exact ⟨rfl, rfl⟩
+  | fee f => obtain ⟨_, _, e⟩ := onMsg_fee h; subst e; exact ⟨rfl, rfl⟩
   | raa =>
     obtain ⟨e, _⟩ := onMsg_raa h
     unfold Node.onRaa at e
@@ -571,13 +665,19 @@ theorem countRaa_mkAdds (amts : List Nat) : ∀ k, countRaa (mkAdds k amts) = 0 
   | nil => intro k; rfl
   | cons a as ih => intro k; simp only [mkAdds, countRaa, List.countP_cons]; have := ih (k + 1); simp only [countRaa] at this; simp [this]
 
+theorem count_feeMsgs (n : Node) : countCs n.feeMsgs = 0 ∧ countRaa n.feeMsgs = 0 := by
+  unfold Node.feeMsgs
+  cases n.pendingFee with
+  | none => exact ⟨rfl, rfl⟩
+  | some p => obtain ⟨f, st⟩ := p; cases st <;> exact ⟨rfl, rfl⟩
+
 theorem count_batch (n : Node) (adds fu fa : List Nat) :
     countCs (batchOf n adds fu fa) = 1 ∧ countRaa (batchOf n adds fu fa) = 0 := by
   unfold batchOf
   refine ⟨?_, ?_⟩
-  · rw [countCs_append, countCs_append, countCs_append, countCs_mkAdds]
+  · rw [countCs_append, countCs_append, countCs_append, countCs_append, countCs_mkAdds, (count_feeMsgs n).1]
     simp [countCs, List.countP_eq_zero]
-  · rw [countRaa_append, countRaa_append, countRaa_append, countRaa_mkAdds]
+  · rw [countRaa_append, countRaa_append, countRaa_append, countRaa_append, countRaa_mkAdds, (count_feeMsgs n).2]
     simp [countRaa, List.countP_eq_zero]
 
 
@@ -610,9 +710,9 @@ theorem countRaa_full (q pend : List Msg) (need sent owes : Nat) (hn : pend ≠ 
 theorem count_lastBatch (n : Node) : countCs n.lastBatch = 1 ∧ countRaa n.lastBatch = 0 := by
   unfold Node.lastBatch
   refine ⟨?_, ?_⟩
-  · rw [countCs_append, countCs_append, countCs_append]
+  · rw [countCs_append, countCs_append, countCs_append, countCs_append, (count_feeMsgs n).1]
     simp [countCs, List.countP_eq_zero]
-  · rw [countRaa_append, countRaa_append, countRaa_append]
+  · rw [countRaa_append, countRaa_append, countRaa_append, countRaa_append, (count_feeMsgs n).2]
     simp [countRaa, List.countP_eq_zero]
 
 theorem lastBatch_ne_nil (n : Node) : n.lastBatch ≠ [] := by unfold Node.lastBatch; simp
@@ -629,6 +729,7 @@ theorem onMsg_counters {n n' : Node} {total : Nat} {m : Msg} {ok : Bool} (h : n.
   | fulfill id => obtain ⟨_, _, e⟩ := onMsg_fulfill h; subst e; exact ⟨rfl, rfl, rfl, rfl, rfl, rfl⟩
   | fail id => obtain ⟨_, _, e⟩ := onMsg_fail h; subst e; exact ⟨rfl, rfl, rfl, rfl, rfl, rfl⟩
   | cs c => obtain ⟨e, _⟩ := onMsg_cs h; subst e; exact ⟨rfl, rfl, rfl, rfl, rfl, rfl⟩
+  | fee f => obtain ⟨_, _, e⟩ := onMsg_fee h; subst e; exact ⟨rfl, rfl, rfl, rfl, rfl, rfl⟩
   | raa =>
     obtain ⟨e, _⟩ := onMsg_raa h
     unfold Node.onRaa at e
@@ -646,6 +747,7 @@ theorem onMsg_paused {n n' : Node} {total : Nat} {m : Msg} {ok : Bool} (h : n.on
   | fulfill _ => obtain ⟨_, _, e⟩ := onMsg_fulfill h; rw [e]
   | fail _ => obtain ⟨_, _, e⟩ := onMsg_fail h; rw [e]
   | cs _ => obtain ⟨e, _⟩ := onMsg_cs h; rw [e]; rfl
+  | fee _ => obtain ⟨_, _, e⟩ := onMsg_fee h; rw [e]
   | raa =>
     obtain ⟨e, _⟩ := onMsg_raa h
     unfold Node.onRaa at e
